@@ -31,6 +31,14 @@ def run(ctx):
     s, _ = ctx.drive(drv, args, name="c44-cases", timeout=7200)
     ctx.cov["behaviours_replayed"] += int(s.get("evaluations", 0))
     ctx.cov["traces_validated_against_impl"] += int(s.get("evaluations", 0))
-    return ctx.finish(rule="MC: all interleavings of <=2 (thorough 3) messages per direction, reads, and <=1 (thorough 2) modifications over 5 handshake and 6 frame position classes plus invalid curve points; R: every complete run executed several times with seeded sizes/codes/compression/chunking",
+    # V: random sessions (0..5 messages per direction, any number of modified frames) validated action by action
+    tp = os.path.join(ctx.scratch, "fuzz.ndjson")
+    fargs = ["-mode", "fuzz", "-trace", tp, "-n", ctx.pick(400, 4000)] + (["-big"] if ctx.thorough else [])
+    s2, _ = ctx.drive(drv, fargs, name="c44-fuzz", timeout=7200)
+    ok, consumed, total, r = ctx.validate("net/RLPxTrace", tp, ntraces=s2["traces"], timeout=7200)
+    if not ok:
+        ctx.reject_trace("net/RLPxTrace", tp, consumed, r,
+                         desc="session on real rlpx.Conn endpoints is not a behaviour of RLPx.tla at event %d (%s)" % (consumed + 1, r.violated or "result of the call differs"))
+    return ctx.finish(rule="MC: all interleavings of <=2 (thorough 3) messages per direction, reads, and <=1 (thorough 2) modifications over 5 handshake and 6 frame position classes plus invalid curve points; R: every complete run executed several times with seeded sizes/codes/compression/chunking; V: random longer sessions with several modifications",
                       assumptions=["one bit flipped per modification", "ECIES and the frame MACs are treated as unforgeable in the specification",
                                    "connection cut after a modified handshake packet"])
